@@ -193,7 +193,7 @@ def run(tier, work):
         sets = [dict(MAXDEPTH=1, MAXIFS=1, ELSIF=T, UNLESS=T, STMT=T, RICH=T),
                 dict(MAXDEPTH=2, MAXIFS=2, ELSIF=F, UNLESS=T, STMT=F, RICH=F),
                 dict(MAXDEPTH=2, MAXIFS=2, ELSIF=T, UNLESS=F, STMT=F, RICH=F),
-                dict(MAXDEPTH=2, MAXIFS=2, ELSIF=T, UNLESS=T, STMT=F, RICH=F, OBJECTS=T)]
+                dict(MAXDEPTH=1, MAXIFS=1, ELSIF=T, UNLESS=T, STMT=T, RICH=F, OBJECTS=T)]
     for cs in sets:
         progs += emit(work, stats, cs)
     if tier == "thorough":
